@@ -46,3 +46,8 @@ let md5 (l : n list) : n list = bytes_of_string (Digest.string (string_of_bytes 
 
 let split_ws (s : string) : string list =
   List.filter (fun x -> x <> "") (String.split_on_char ' ' s)
+
+(* shared output buffer *)
+let out = Buffer.create 65536
+let pr fmt = Printf.bprintf out fmt
+let spec opidx name ok detail = pr "spec %d %s %s %s\n" opidx (if ok then "ok" else "FAIL") name detail
